@@ -117,14 +117,6 @@ def run(ctx):
         skipped += int(kv.get("skipped", 0))
         late_cases += int(kv.get("late", 0))
         qid = cid.split("-", 1)[0]
-        if kv.get("capi", "skipped") != "skipped":
-            capi_cmp += 1
-            if kv["capi"] != "ok":
-                capi_bad += 1
-                ctx.violation("judge", "C18 C API (c_lib.rs ts_tagger_tag) disagrees with the Rust API on the same input: " + kv["capi"][:200],
-                              {"case": cid, "spec": specs.get(cid, ""), "result": kv},
-                              fingerprint={"queryset": qid, "clause": "capi"})
-        docs_by_set[qid] = docs_by_set.get(qid, 0) + int(kv.get("withdocs", 0))
         names_total += int(kv.get("names", 0))
         if int(kv.get("arrbad", 0)) > 0:
             arr_bad += int(kv["arrbad"])
@@ -150,6 +142,14 @@ def run(ctx):
                           "replacement characters on ill-formed UTF-8): " + kv.get("lossymsg", ""),
                           {"case": cid, "spec": specs.get(cid, ""), "result": kv},
                           fingerprint={"queryset": qid, "clause": "utf16-lossy"})
+        if kv.get("capi", "skipped") != "skipped":
+            capi_cmp += 1
+            if kv["capi"] != "ok":
+                capi_bad += 1
+                ctx.violation("judge", "C18 C API (c_lib.rs ts_tagger_tag) disagrees with the Rust API on the same input: " + kv["capi"][:200],
+                              {"case": cid, "spec": specs.get(cid, ""), "result": kv},
+                              fingerprint={"queryset": qid, "clause": "capi"})
+        docs_by_set[qid] = docs_by_set.get(qid, 0) + int(kv.get("withdocs", 0))
     matching = [VARIANTS[i] for i in range(NV) if var_ok[i]]
     if corr_cases and not matching:
         cid, kv, vs = first_diff
